@@ -60,6 +60,8 @@ class Recorder:
 
 def make_metric(rec, name, inv, kw_seen):
     """metric callable with a kwarg; logs every call with the object it was given."""
+    buf = np.zeros(2)
+
     def metric(s, threshold=None, **extra):
         kw_seen.append(threshold is not None and not extra)
         rec.ev("MetricCall", obj=sd.alpha_obj(s, inv))
@@ -67,6 +69,10 @@ def make_metric(rec, name, inv, kw_seen):
         if name == "vec":
             # array-valued metric whose second component is undefined on some samples
             top = c.tp() + c.fp()
+            if rec.cid % 2:
+                # ... written into an output buffer that the metric re-uses on every call
+                buf[:] = [float(c.fp()), float(c.tp()) if top > 0 else np.nan]
+                return buf
             return np.array([float(c.fp()), float(c.tp()) if top > 0 else np.nan])
         if name == "micro":
             return c.fp() * 1e-6                  # the same count reported in a small unit
